@@ -182,6 +182,11 @@ def check_case(case):
                 out.fail('reread', 'segments after format+reread differ (%d vs %d)' % (len(a), len(b)))
         except Exception as e:
             out.fail(core.exc_bucket(e, 'reread'), core.exc_detail(e))
+    if case.get('twin_sub') and len(text) > x12ref.ISA_LEN:
+        twin = dict(case, text=text[:x12ref.ISA_LEN - 2] + case['twin_sub'] + text[x12ref.ISA_LEN - 1:], kinds=['stringio', 'chunked'])
+        del twin['twin_sub']
+        for b, dt in check_case(twin).failures:
+            out.fail(b + ':redeclared', 'after reading the same text with component separator %r: %s' % (text[x12ref.ISA_LEN - 2], dt))
     meta = case.get('meta', {})
     classes = list(meta.get('classes', []))
     out.classes = classes + ['segs:%s' % ('0' if len(ref) <= 1 else '1-10' if len(ref) <= 11 else '11+')]
@@ -312,7 +317,14 @@ def case_strategy(tier):
                                min_size=nchunks, max_size=nchunks))
         if min(chunks) < BUF:
             classes.add('short-reads')
-        return {'text': text, 'chunks': chunks, 'meta': {'classes': sorted(classes), 'icvn': icvn, 'delims': [term, ele, sub]}}
+        case = {'text': text, 'chunks': chunks, 'meta': {'classes': sorted(classes), 'icvn': icvn, 'delims': [term, ele, sub]}}
+        # the same raw text read again in the same process under another declared component separator (one that occurs in
+        # its data): what was a separator is now data and the other way round
+        cands = sorted(set(c for c in text[x12ref.ISA_LEN:] if c in PUNCT + CTRL and c not in (term, ele, sub, rep, '\n', '\r')))
+        if cands and draw(st.integers(0, 2)) == 0:
+            case['twin_sub'] = draw(st.sampled_from(cands))
+            case['meta']['classes'] = sorted(classes | {'redeclared-component-separator'})
+        return case
 
     return gen()
 
